@@ -168,6 +168,7 @@ func zzH_C06_eval() {
 	ok := zzAccessCheck()
 	zzAssert(pan == nil, "no-panic")
 	zzAssert(ok, "evaluation-writes-only-owned-memory")
+	zzAssert(zzPoisonClean(), "no-use-of-recycled-buffer")
 	zzAssert(zzMutexFree(), "mutex-free")
 }
 
